@@ -112,6 +112,25 @@ def jobs(tier, seed=0):
               BankInst("bank32/%s/%s" % (ordering, nm), regs, bw=32, ordering=ordering, paging=0x20, address=2,
                        data_values=(0xA5A5A5A5,), dev_values=(0x1C3C3C3C3,),
                        monitor_atomic=not is_atomic_little(ordering, regs, 32)))
+    if not quick:
+        for ordering in ("big", "little"):
+            for nm, regs in [("st3+st9a_wfd+st1", [S(3, reset=5), S(9, atomic=True, wfd=True), S(1)]),
+                             ("st17_wfd+sta17rw", [S(17, wfd=True), T(17, wfd=True)]),
+                             ("st8a+st9+raw3+sta1", [S(8, atomic=True), S(9), R(3), T(1)])]:
+                A(lambda nm=nm, regs=regs, ordering=ordering:
+                  BankInst("bank8/%s/%s" % (ordering, nm), regs, bw=8, ordering=ordering, paging=0x20, address=1,
+                           monitor_atomic=not is_atomic_little(ordering, regs, 8)))
+            for nm, regs in [("st33a", [S(33, atomic=True, wfd=True)]), ("st17+sta16+st1", [S(17), T(16), S(1)])]:
+                A(lambda nm=nm, regs=regs, ordering=ordering:
+                  BankInst("bank16/%s/%s" % (ordering, nm), regs, bw=16, ordering=ordering, paging=0x40, address=5,
+                           data_values=(0xA5A5, 0x5A5A), dev_values=(0x1C3C3C3C3,),
+                           monitor_atomic=not is_atomic_little(ordering, regs, 16)))
+        A(lambda: SramInst("sram/4x16-on-8/staging", 16, 4, paging=0x40, data_values=(0xA5,)))
+        A(lambda: SramInst("sram/8x8/paged2", 8, 8, paging=0x10))
+        A(lambda: ArrayInst("array/little/2banks+mem/2masters",
+                            [("a", [S(9, atomic=True)], []), ("b", [T(3)], [(8, 2, False, None)])],
+                            {"a": 0, "b": 2}, {("b", 0): 3}, bw=8, ordering="little", paging=0x20, nmasters=2,
+                            data_values=(0xA5,)))
     # bank whose words exactly fill / overflow its page (paging 8 -> 2 words per bank): the third word is unreachable
     A(lambda: BankInst("bank8/big/overflow-page", [S(17)], bw=8, ordering="big", paging=8, address=1))
     A(lambda: BankInst("bank8/big/default-paging", [S(9), T(1)], bw=8, ordering="big", paging=0x800, address=3,
@@ -352,8 +371,40 @@ def correspond_layout(ctx, out, n_cases):
     ctx.cov.add_cases("GenericBank simple-CSR layout / addrOf", n_cases, n_ok)
 
 
+def run_corpus(ctx):
+    """Minimised past disagreements and finding witnesses: model and code must agree (and match the recorded
+    outputs) on each of them."""
+    import glob, json, os
+    out = []
+    files = sorted(glob.glob(os.path.join(os.path.dirname(os.path.dirname(os.path.dirname(__file__))), "corpus", "C12", "*.json")))
+    for f in files:
+        e = json.load(open(f))
+        if e.get("kind") != "bank":
+            continue
+        regs = [Reg(r["kind"], r.get("size", 1), r.get("reset", 0), r.get("atomic", False), r.get("wfd", False),
+                    [Field(**fd) for fd in r.get("fields", [])]) for r in e["regs"]]
+        inst = BankInst("corpus/" + os.path.basename(f), regs, bw=e["bw"], ordering=e["ordering"], paging=e["paging"],
+                        address=e["address"])
+        from explore import impl_step, Disagreement
+        impl = [impl_step(inst, tuple(l)) for l in e["trace"]]
+        ctx.lean.open(inst.lean_open)
+        model = ctx.lean.run([list(l) for l in e["trace"]])
+        ctx.lean.close_session()
+        for t, (a, b) in enumerate(zip(impl, model)):
+            if a != b or ("expect_outs" in e and a != e["expect_outs"][t]):
+                d = Disagreement(inst, [tuple(l) for l in e["trace"][:t + 1]], t, a, b)
+                d.kind = "corpus:" + os.path.basename(f)
+                out.append(d)
+                break
+    ctx.cov.add_cases("corpus/C12", len(files), len(files), exhaustive=True)
+    return out
+
+
 def correspond(ctx):
     ctx.jobs = jobs(ctx.tier, ctx.seed)
+    corpus_dis = run_corpus(ctx)
+    if corpus_dis:
+        ctx.log("corpus: %d disagreements" % len(corpus_dis))
     ctx.log("%d hardware jobs" % len(ctx.jobs))
     dis, bad = run_jobs(ctx, ctx.jobs)
     ctx.log("hardware jobs done: %d disagreements" % len(dis))
@@ -364,7 +415,7 @@ def correspond(ctx):
     correspond_layout(ctx, extra, 60 if quick else 600)
     ctx.log("python-level differential done: %d disagreements" % len(extra))
     ctx.modec = extra
-    return dis + extra
+    return corpus_dis + dis + extra
 
 
 # ---------------------------------------------------------------------------------------------------------
